@@ -40,6 +40,17 @@ QRenderFault(q, lay, fault) ==
        [] fault = "bad_sense" -> << [ls EXCEPT ![typeIdx + 1] = "minimise"], typeIdx + 1 >>
        [] fault = "bad_count" -> << [ls EXCEPT ![typeIdx + 2] = "two"], typeIdx + 2 >>
        [] fault = "eof" -> << SubSeq(ls, 1, Len(ls) - 3), Len(ls) - 3 >>
+       \* a malformed number in an entry of a multi-entry section that is NOT the last one: the error carries the line of
+       \* that entry (b^0 section: first entry; the section starts after the header and the Q^0 block)
+       [] fault = "bad_b0_first" ->
+            LET pre == (IF lay.comments THEN 2 ELSE 1) + 3 + (IF HasCons(q) THEN 1 ELSE 0) + (IF q.o # "L" THEN 1 + Len(q.q0) ELSE 0)
+                idx == pre + 3 IN
+            << [ls EXCEPT ![idx] = ToString(q.b0[1][1]) \o " 1x5"], idx >>
+       [] fault = "bad_bi_first" ->
+            LET pre == (IF lay.comments THEN 2 ELSE 1) + 3 + (IF HasCons(q) THEN 1 ELSE 0) + (IF q.o # "L" THEN 1 + Len(q.q0) ELSE 0)
+                       + 2 + Len(q.b0) + (IF lay.comments THEN 1 ELSE 0) + 1 + (IF q.c \in {"D", "C", "Q"} THEN 1 + Len(q.qi) ELSE 0)
+                idx == pre + 2 IN
+            << [ls EXCEPT ![idx] = ToString(q.bi[1][1]) \o " " \o ToString(q.bi[1][2]) \o " 2,5"], idx >>
        [] OTHER -> << ls, 0 >>
 
 \* ---- meaning ------------------------------------------------------------------------------------
